@@ -94,6 +94,9 @@ class Radio:
         for name, v in list(cell.fields.items()):
             if isinstance(v, Ref) and v.kind == "bytearray" and len(self.inv.heap[v.ident].items or []) > 16:
                 self.inv.heap[v.ident].items = self.inv.heap[v.ident].items[:3]
+        # the STATUS byte cached before the analysed call is transaction 0; the call's own transactions are numbered from 1, so a test of
+        # the cached byte can never be mistaken for a test of a byte read during the call
+        self.inv.extra["txn"] = -1
         self.model.new_status(self.it0, self.inv, None, self.ref, None)
         self.inv.extra["txn"] = 0
 
@@ -146,12 +149,17 @@ class Radio:
         f = self.prog.method(self.cls, "open_rx_pipe")
         st = self.fresh()
         probe = Bytes([(("const", b"\x11\x22\x33\x44\x55"), Const(5))], "bytes")
+        before = dict(st.heap[self.ref.ident].fields)     # snapshot: the run may continue in (and change) this very state object
         outs = [o for o in self.run(f, [0, probe], st) if o.kind == "return"]
         names = set()
         for o in outs:
             for k, v in o.state.heap[self.ref.ident].fields.items():
                 if isinstance(v, Bytes) and v.key() == probe.key():
                     names.add(k)
+                elif isinstance(v, Ref) and v.kind == "bytearray" and not (isinstance(before.get(k), Ref) and before[k].ident == v.ident):
+                    # the field was re-bound to a buffer that holds the address (a copy - or, wrongly, an alias of the shadow: judged by R08.6)
+                    if self.it0.concrete_bytes(v, o.state) == b"\x11\x22\x33\x44\x55":
+                        names.add(k)
         if len(names) != 1:
             raise AnalysisError("cannot identify the field holding the user's pipe-0 address (candidates: %s)" % sorted(names))
         self._p0f = names.pop()
